@@ -1,6 +1,9 @@
 package ro
 
-import "context"
+import (
+	"context"
+	"strings"
+)
 
 // C12: a pipeline built once and subscribed twice (cold deterministic source)
 // produces the same notifications both times and the same as a freshly built
@@ -32,3 +35,40 @@ func vC12Reuse(L int) {
 
 func vhC12_reuse_L2() { vC12Reuse(2) }
 func vhC12_reuse_L3() { vC12Reuse(3) }
+
+// C12 (concurrent subscriptions): one cold pipeline subscribed from two threads at once; the
+// source's emissions of the two subscriptions interleave (it yields before each emission).  Each
+// subscriber must get exactly what a single subscription of a fresh pipeline gets.
+func vC12Conc(L int) {
+	op := &vCatalog[vChoice("entry", len(vCatalog))]
+	if op.nsrc != 1 || strings.HasPrefix(op.name, "ToMap") {
+		// ToMap*: the harness's own key log (used to flatten the emitted map in insertion order)
+		// is shared by the subscriptions of one pipeline, so interleaved subscriptions would
+		// differ through the harness, not through the operator
+		vAssume(false)
+	}
+	in := vLegalScript("s", L)
+	if vEnd(in) == -1 {
+		vAssume(false)
+	}
+	p := &vProbe{name: "src", cold: true, script: in, yieldEmit: true}
+	c := &vCtx{src: []Observable[int64]{p}, L: L}
+	pipe := op.mk(c)
+	recs := []*vRecorder{{name: "a"}, {name: "b"}}
+	for t := 0; t < 2; t++ {
+		t := t
+		vGo(func() { pipe(context.Background(), recs[t]) })
+	}
+	vQuiesce()
+	// the expectation: one more subscription of the same pipeline, alone (vhC12_reuse shows that
+	// sequential subscriptions agree with each other)
+	want := &vRecorder{name: "w"}
+	pipe(context.Background(), want)
+	for _, r := range recs {
+		vSameEvents(op.name+" (concurrent subscriptions of one pipeline)", r.evs, want.evs)
+	}
+	vReach("end")
+}
+
+func vhC12_conc_L2() { vC12Conc(2) }
+func vhC12_conc_L3() { vC12Conc(3) }
